@@ -186,3 +186,6 @@ def evaluate(case):
 
 def finish(stats, tier):
     return [] if stats["outcomes"].get("read_tree") else ["no run read the tree"]
+
+
+RULE += ' Since rounds 10-11 also: transform programs that leave files next to their input, and programs that cannot be launched.'
